@@ -68,7 +68,9 @@ fn header(lint: bool, name: &str) -> (String, &'static str) {
     if lint { (format!("rule OK_{}", name), "meta: author = \"me\" ") } else { (format!("rule {}", name), "") }
 }
 
-fn gen_good(rng: &mut Rng, ns: usize, name: &str, lint: bool, shared: &mut Vec<String>) -> Src {
+fn rule_ident(lint: bool, name: &str) -> String { if lint { format!("OK_{}", name) } else { name.to_string() } }
+
+fn gen_good(rng: &mut Rng, ns: usize, name: &str, lint: bool, shared: &mut Vec<String>, deps: &[String]) -> Src {
     let np = 1 + rng.below(3) as usize;
     let mut pats = vec![];
     let mut uses = vec![];
@@ -86,13 +88,20 @@ fn gen_good(rng: &mut Rng, ns: usize, name: &str, lint: bool, shared: &mut Vec<S
     }
     let extra = match rng.below(4) { 0 => " and filesize < 1000", 1 => " and filesize > 2", _ => "" };
     let extra = if rng.chance(1, 3) { format!("{} and {}", extra, gen_regex_group(rng)) } else { extra.to_string() };
+    // a rule of the same namespace declared earlier, used in the condition
+    let extra = if !deps.is_empty() && rng.chance(1, 3) {
+        let d = rng.pick(deps);
+        if rng.chance(1, 2) { format!("{} or {}", extra, d) } else { format!("{} and ({} or filesize >= 0)", extra, d) }
+    } else { extra };
     let (h, meta) = header(lint, name);
+    let flags = match rng.below(12) { 0 | 1 => "private ", 2 => "global ", 3 => "private global ", _ => "" };
+    let tags = if rng.chance(1, 4) { if lint { " : good" } else { " : t1 good" } } else { "" };
     let joiner = if rng.chance(1, 2) { " or " } else { " and " };
-    Src { ns, text: format!("{} {{ {}strings: {} condition: ({}){} }}", h, meta, pats.join(" "), uses.join(joiner), extra) }
+    Src { ns, text: format!("{}{}{} {{ {}strings: {} condition: ({}){} }}", flags, h, tags, meta, pats.join(" "), uses.join(joiner), extra) }
 }
 
 fn gen_bad(rng: &mut Rng, ns: usize, id: usize, lint: bool, slow_err: bool, ignore_mod: bool,
-           shared: &[String], good_names: &[String]) -> (Src, String, (usize, usize), usize, bool) {
+           shared: &[String], good_names: &[String], ignored_rule: Option<&String>) -> (Src, String, (usize, usize), usize, bool, String) {
     // patterns of the same rule that are registered before the failure
     let k = rng.below(4) as usize;
     let mut pats = vec![];
@@ -105,6 +114,8 @@ fn gen_bad(rng: &mut Rng, ns: usize, id: usize, lint: bool, slow_err: bool, igno
     }
     let pre = if pats.is_empty() { String::new() } else { pats.join(" ") + " " };
     if rng.chance(1, 3) { uses.push(gen_regex_group(rng)); }
+    // the failing rule depends on an earlier rule of its namespace
+    if !good_names.is_empty() && rng.chance(1, 3) { uses.push(format!("({} or filesize >= 0)", { let g: &String = rng.pick(good_names); rule_ident(lint, g.as_str()) })); }
     let cond_pre = if uses.is_empty() { String::new() } else { uses.join(" and ") + " and " };
     let strings = |extra: &str| -> String {
         if pre.is_empty() && extra.is_empty() { String::new() } else { format!("strings: {}{} ", pre, extra) }
@@ -122,6 +133,7 @@ fn gen_bad(rng: &mut Rng, ns: usize, id: usize, lint: bool, slow_err: bool, igno
     if slow_err { kinds.extend([10, 10, 11, 11]); }
     if lint { kinds.extend([12, 12, 12]); }
     if ignore_mod { kinds.extend([13, 13]); }
+    if ignored_rule.is_some() { kinds.extend([18, 18, 18]); }
     let kind = *rng.pick(&kinds);
     let (text, kindname, exp_errors, exp_ignored, exp_err): (String, &str, (usize, usize), usize, bool) = match kind {
         0 => (format!("{} {{ {}{}condition: {}true and and }}", h, meta, strings(""), cond_pre), "syntax", (1, 50), 0, true),
@@ -150,6 +162,8 @@ fn gen_bad(rng: &mut Rng, ns: usize, id: usize, lint: bool, slow_err: bool, igno
         // too-large regexps: found only after the earlier patterns of the rule were registered
         16 => (format!("{} {{ {}{}condition: {}$z }}", h, meta, strings("$z = /abcd((efg){0,10000}){0,10000}/"), cond_pre), "regexp-too-large", one, 1, true),
         17 => (format!("{} {{ {}{}condition: {}gs0 matches /([a-z]{{2000}}){{1000}}/ }}", h, meta, strings(""), cond_pre), "matches-regexp-too-large", one, 1, true),
+        // a rule depending on a rule that was ignored because of an ignored module is skipped too
+        18 => (format!("{} {{ {}{}condition: {}{} }}", h, meta, strings(""), cond_pre, ignored_rule.unwrap()), "depends-on-ignored-rule", (0, 0), 1, false),
         // a rule using an ignored module is skipped, listed in ignored_rules(), not an error
         _ => (format!("{} {{ {}{}condition: {}ghost_module.some_field == {} }}", h, meta, strings(""), cond_pre, id), "uses-ignored-module", (0, 0), 1, false),
     };
@@ -158,7 +172,8 @@ fn gen_bad(rng: &mut Rng, ns: usize, id: usize, lint: bool, slow_err: bool, igno
         if rng.chance(1, 2) { format!("{} // suppress: {}", text, codes) } else { format!("// suppress: {}\n{}", codes, text) }
     } else { text };
     let kindname = if suppress { format!("{}+suppress", kindname) } else { kindname.to_string() };
-    (Src { ns, text }, kindname, exp_errors, exp_ignored, exp_err)
+    let ident = match kind { 12 => format!("lowercase_bad{}", id), 9 => String::new(), _ => rule_ident(lint, &format!("bad{}", id)) };
+    (Src { ns, text }, kindname, exp_errors, exp_ignored, exp_err, ident)
 }
 
 struct Compiled { rules: Option<yara_x::Rules>, add_results: Vec<bool>, n_errors: usize, n_ignored: usize, build_panic: bool, warnings: Vec<String> }
@@ -388,12 +403,23 @@ fn gen_case(rng: &mut Rng) -> Case {
     for i in 0..npre {
         if i > 0 && rng.chance(1, 3) { ns += 1; }
         let name = format!("g{}", i);
-        pre.push(gen_good(rng, ns, &name, lint, &mut shared));
+        let deps: Vec<String> = pre.iter().zip(names.iter()).filter(|(s, _): &(&Src, &String)| s.ns == ns).map(|(_, n)| rule_ident(lint, n)).collect();
+        pre.push(gen_good(rng, ns, &name, lint, &mut shared, &deps));
         names.push(name);
     }
+    // a rule that is ignored (not an error) because it uses an ignored module; later rules may depend on it
+    let mut ignored_rule = None;
+    if ignore_mod && rng.chance(1, 2) {
+        let (h, meta) = header(lint, "ign0");
+        pre.push(Src { ns, text: format!("{} {{ {}condition: ghost_module.a == 1 }}", h, meta) });
+        names.push("ign0".to_string());
+        ignored_rule = Some(rule_ident(lint, "ign0"));
+    }
+    let npre = pre.len();
     // names visible in the bad rule's namespace
-    let visible: Vec<String> = pre.iter().zip(names.iter()).filter(|(s, _)| s.ns == ns).map(|(_, n)| n.clone()).collect();
-    let (bad, kind, exp_errors, exp_ignored, exp_err) = gen_bad(rng, ns, npre, lint, slow_err, ignore_mod, &shared, &visible);
+    let visible: Vec<String> = pre.iter().zip(names.iter()).filter(|(s, n)| s.ns == ns && n.as_str() != "ign0").map(|(_, n)| n.clone()).collect();
+    let (bad, kind, exp_errors, exp_ignored, exp_err, bad_ident) = gen_bad(rng, ns, npre, lint, slow_err, ignore_mod, &shared, &visible, ignored_rule.as_ref());
+    let bad_ns = ns;
     let mut post = vec![];
     for i in 0..npost {
         // later sources often open a new namespace and re-use earlier rule names there
@@ -402,7 +428,9 @@ fn gen_case(rng: &mut Rng) -> Case {
         let fresh_in_ns = !pre.iter().zip(names.iter()).any(|(s, n)| s.ns == ns && *n == name)
             && !post.iter().any(|(s, n): &(Src, String)| s.ns == ns && *n == name);
         let name = if fresh_in_ns { name } else { format!("k{}_{}", ns, i) };
-        post.push((gen_good(rng, ns, &name, lint, &mut shared), name));
+        let deps: Vec<String> = pre.iter().zip(names.iter()).map(|(s, n)| (s, n.clone())).chain(post.iter().map(|(s, n): &(Src, String)| (s, n.clone())))
+            .filter(|(s, n)| s.ns == ns && n.as_str() != "ign0").map(|(_, n)| rule_ident(lint, &n)).collect();
+        post.push((gen_good(rng, ns, &name, lint, &mut shared, &deps), name));
     }
     // probes: sources that must be rejected whether or not the bad source was seen
     let mut probes = vec![];
@@ -410,6 +438,11 @@ fn gen_case(rng: &mut Rng) -> Case {
         let (h, meta) = header(lint, "probe0");
         let body = *rng.pick(&["i == 1", "j == 1 or k == 2", "k + i > 0", "for any x in (1..2) : ( x == j )"]);
         probes.push(Src { ns, text: format!("{} {{ {}condition: {} }}", h, meta, body) });
+    }
+    // the name of a rule that failed must stay unknown (only when it ends in the namespace the bad rule was in)
+    if exp_err && !bad_ident.is_empty() && ns == bad_ns && rng.chance(1, 2) {
+        let (h, meta) = header(lint, "probe1");
+        probes.push(Src { ns, text: format!("{} {{ {}condition: {} or filesize > 0 }}", h, meta, bad_ident) });
     }
     Case { pre, bad, post: post.into_iter().map(|p| p.0).collect(), probes, kind, slow_err, lint, ignore_mod, exp_errors, exp_ignored, exp_err }
 }
